@@ -20,7 +20,12 @@ import (
 
 var labels = []string{"a", "b", "ab", "x-y", "example", "com", "org", "mail", "A", "Ex", "COM", "m1", "a_b", "1"}
 
+var literalDomains = []string{"[127.0.0.1]", "[IPv6:2001:db8::25]", "[IPv6:2001:DB8::AB:1]", "[10.0.0.1]", "[IPv6:::1]"}
+
 func genDomain(g *vh.Gen) string {
+	if g.Chance(0.1) { // address literals: the policy lists may name them too
+		return g.Pick(literalDomains...)
+	}
 	n := 1 + g.Intn(3)
 	parts := make([]string, n)
 	for i := range parts {
